@@ -72,6 +72,8 @@ struct Options {
    // may call Scheduler::Note() to attach a state dump.  Not called for K_NOTE.
    std::function<void(const Event &)> on_event;
    unsigned max_decisions;                // livelock guard (default 20000)
+   bool     reuse_threads;                // default true: Spawn()ed bodies run on pooled native threads that persist across Scheduler objects
+                                          // (thread creation is by far the most expensive part of a run under ASan); false: a fresh std::thread each
    unsigned timeout_weight_percent;       // policy RANDOM: chance that an enabled timeout choice is preferred over running (default 15)
 };
 static inline uint64_t KindBit(int k) {return (k >= 0 && k < 64) ? (1ULL << k) : 0;}
